@@ -52,7 +52,7 @@ class LoggingIterator:
 
 def _cfg():
     avoid = open_features()
-    return Cfg(nvars=(1, 1), pool=(1, 7), dom=(0, 7), profile="falsy" if "falsy_values" not in avoid else "clean",
+    return Cfg(nvars=(1, 1), pool=(3, 8), dom=(2, 8), profile="falsy" if "falsy_values" not in avoid else "clean",
                max_depth=2, allow_nested_not="not_under_not" not in avoid, allow_empty_cond=True, noise=True,
                select="first", desc=("entity",), dom_kinds=("list",))
 
